@@ -28,6 +28,8 @@ CORPUS = [
     # suspend / resume / priority / pstate
     {"kind": "cpu", "cfg": CFGS[0], "lines": ["H h0 1 2 1.0 0.5", "A e0 E h0 100.0 0.0 -1.0 1.0 1", "A e1 E h0 50.0 0.0 -1.0 2.0 1",
                                                 "X 10.0 S e0", "X 20.0 U e0", "X 30.0 K h0 1", "X 40.0 P e1 1.0", "Z 0.5"]},
+    {"kind": "cpu", "cfg": CFGS[0], "lines": ["H h0 1 1 1.0", "A e0 E h0 100.0 0.0 -1.0 1.0 1", "X 10.0 S e0", "X 20.0 P e0 2.0", "X 50.0 U e0"]},
+    {"kind": "cpu", "cfg": CFGS[1], "lines": ["H h0 1 1 1.0", "A e0 E h0 100.0 0.0 -1.0 1.0 1", "X 10.0 S e0", "X 20.0 P e0 2.0", "X 50.0 U e0"]},
     {"kind": "net", "cfg": CFGS[0], "lines": ["H h0 1 1 1.0", "H h1 1 1 1.0", "L l0 100.0 0.5 S", "R h0 h1 1 l0", "A c0 C h0 h1 1000.0 0.0 -1.0",
                                                 "A c1 C h1 h0 500.0 1.0 -1.0", "X 2.0 S c0", "X 4.0 U c0", "X 6.0 B l0 50.0"]},
 ]
